@@ -65,8 +65,8 @@ def _hasinf(obs):
 
 
 def coq_case(case, obs):
-    if 'exc' in obs or ('err' not in obs and _hasinf(obs)) or case.get('exact'):
-        return None                               # an infinity, or a value decided by floating-point cancellation, is not a value of the rational model: left to the oracle
+    if 'exc' in obs or ('err' not in obs and _hasinf(obs)) or case.get('exact') or obs.get('err') == 'Other:OverflowError':
+        return None                               # an infinity, a floating-point overflow (e.g. the 1e300 sentinel of an aggregate over no value, squared) or a value decided by cancellation is not a value of the rational model: left to the oracle
     n = len(case['X'])
     ex4 = case.get('extra')
     t = '{| xs := %s; ys := %s; zs := %s; ts := %s; dico := [(s_ "a", 0%%nat); (s_ "b", 1%%nat); (s_ "s", 2%%nat)%s]; feats := %s |}' % (
@@ -299,8 +299,11 @@ def ev(e, env, n):
 
 def env_of(case):
     n = len(case['X'])
-    return {'a': [_f(v) for v in case['a']], 'b': [_f(v) for v in case['b']], 's': [_f(v) for v in case['s']], 'x': list(case['X']), 'y': list(case['Y']), 'z': list(case['Z']),
-            'idx': [float(i) for i in range(n)]}
+    env = {'a': [_f(v) for v in case['a']], 'b': [_f(v) for v in case['b']], 's': [_f(v) for v in case['s']], 'x': list(case['X']), 'y': list(case['Y']), 'z': list(case['Z']),
+           'idx': [float(i) for i in range(n)]}
+    if case.get('extra'):
+        env[case['extra'][0]] = [_f(v) for v in case['extra'][1]]
+    return env
 
 
 def gen_trees(rng, n, tier):
@@ -327,9 +330,14 @@ def gen_trees(rng, n, tier):
             continue
         lhs = rng.choice([None, None, None, 'c', 'a', 'x', 'y', 'z'])
         if rng.random() < 0.2:                    # a fourth feature, under a name close to the reserved ones (substrings of "xyzt", prefixes of keywords) or an ordinary one; often the target
-            nm = rng.choice(['xy', 'yz', 'zt', 'xyz', 'xyzt', 'id', 'tx', 'ab', 'p', 'x2'])
+            nm = rng.choice(['xy', 'yz', 'zt', 'xyz', 'xyzt', 'id', 'tx', 'ab', 'p', 'x2', 'inf', 'nan', 'Inf', 'sup'])        # ... or a name that float() would accept
             c['extra'] = [nm, [rng.choice([1, 2, -1, 0.5, 7]) for _ in c['X']]]
             lhs = rng.choice([nm, nm, nm, None, 'c'])
+            if rng.random() < 0.5 and not c.get('exact'):        # the fourth feature as an operand
+                floaty = nm in ('inf', 'nan', 'Inf')        # such a token next to a number is read as a number by the grammar itself: only feature operands beside it
+                e = ['bin', rng.choice(['+', '-', '*', '<', '>']), rng.choice([['name', rng.choice(['a', 'b', 's', 'x', 'idx'])], ['name', 'a'] if floaty else e]), ['name', nm]] if rng.random() < 0.5 else \
+                    ['bin', rng.choice(['+', '-', '*', '<', '>']), ['name', nm], ['name', rng.choice(['a', 'b', 's', 'x'])]]
+                lhs = rng.choice([None, None, 'c', nm])
         s = pr(e, rng)
         if rng.random() < 0.15:
             s = ' ' + s.replace('+', ' + ').replace('(', '( ')
